@@ -61,6 +61,9 @@ KINDS = {
     "map_int": ({"type": "object", "additionalProperties": INT}, [{}, {"a": 1}], [{"a": "x"}, []], False),
     "map_any": ({"type": "object"}, [{}, {"a": [1]}], [5, []], False),
     "map_key": ({"type": "object", "additionalProperties": INT, "propertyNames": {"type": "string", "pattern": "^[a-z]+$"}}, [{"ab": 1}, {}], [{"AB": 1}], False),
+    "map_enum_key": ({"type": "object", "additionalProperties": INT, "propertyNames": {"type": "string", "enum": ["cpu", "mem"]}}, [{"cpu": 4}, {}], [{"disk": 1}, {"cpu": "x"}], False),
+    "map_patprops": ({"type": "object", "patternProperties": {"^[a-z]+$": INT}, "additionalProperties": False}, [{"cpu": 4}, {}], [{"Bad-Key": 1}], False),
+    "map_key_len": ({"type": "object", "additionalProperties": INT, "propertyNames": {"type": "string", "maxLength": 3}}, [{"cpu": 4}], [{"toolong": 1}], False),
     "tuple1": ({"type": "array", "items": [INT], "minItems": 1, "maxItems": 1}, [[5]], [[], [1, 2], ["a"]], False),
     "tuple2": ({"type": "array", "items": [INT, STR], "minItems": 2, "maxItems": 2}, [[1, "a"]], [[1], ["a", 1]], False),
     "array2": ({"type": "array", "items": INT, "minItems": 2, "maxItems": 2}, [[1, 2]], [[1], [1, 2, 3]], False),
@@ -111,7 +114,7 @@ KINDS = {
     "uuid": ({"type": "string", "format": "uuid"}, ["00000000-0000-0000-0000-000000000000"], [], True),
     "date": ({"type": "string", "format": "date"}, ["2020-02-29"], [], True),
 }
-QUICK_KINDS = ["bool", "u8", "i64", "nz32", "f64", "string", "str_max2", "str_enum", "opt_scalar", "opt_struct", "vec", "set", "map_int", "map_any",
+QUICK_KINDS = ["bool", "u8", "i64", "nz32", "f64", "string", "str_max2", "str_enum", "opt_scalar", "opt_struct", "vec", "set", "map_int", "map_any", "map_key", "map_enum_key", "map_patprops", "map_key_len",
                "tuple1", "tuple2", "struct", "struct_closed", "struct_renamed", "alias", "struct_req_nullable", "struct_nested_defaults", "struct_inline_defaults", "enum_inline_defaults", "struct_flat", "struct_flat_renamed", "struct_flat_renamed_inline", "enum_ext", "enum_int", "enum_adj", "enum_unt", "enum_ext_tuple", "enum_adj_tuple", "enum_unt_struct", "deny_list", "str_pattern",
                "typed_enum", "boxed", "unit", "uuid"]
 
